@@ -75,9 +75,14 @@ def to_lean(g):
         elif k == "rep":
             if e["op"] == "#":
                 x = e["x"]
-                if x["k"] not in ("seq", "alt") or x.get("sup") or len(x["xs"]) < 2:
-                    raise Unsupported("# operand")
-                d = {"k": "unord", "xs": [ex(y) for y in x["xs"]], "sep": sep(e.get("sep")), "eol": bool(e.get("eol"))}
+                if x["k"] in ("seq", "alt"):
+                    # `(a b)#` / `(a | b)#`: the elements of the group; a suppressed group cannot be written as operand
+                    if x.get("sup") or len(x["xs"]) < 2:
+                        raise Unsupported("# operand")
+                    xs = x["xs"]
+                else:
+                    xs = [x]          # any other operand is the only element of the group
+                d = {"k": "unord", "xs": [ex(y) for y in xs], "sep": sep(e.get("sep")), "eol": bool(e.get("eol"))}
                 if e.get("sup"):
                     d["sup"] = True
             else:
@@ -209,6 +214,8 @@ class Deriver(G.Deriver):
             return self.d(self.rules[e["name"]]["body"], depth + 1)
         if low and k == "alt":
             return self.d(min(e["xs"], key=self.ml), depth)
+        if k == "rep" and e["op"] == "#" and e["x"]["k"] not in ("seq", "alt"):
+            return self.d(e["x"], depth)          # one-element group
         if low and k in ("rep", "asgn") and e["op"] in ("?", "*", "?=", "*="):
             return []
         if low and k in ("rep", "asgn") and e["op"] in ("+", "+="):
@@ -230,6 +237,34 @@ def sentences(g, rng, n_derived, n_mutated):
 NULLABLE_RE = {r"q?"}
 
 
+def unord_elems(e):
+    """elements of the unordered group `x#`"""
+    x = e["x"]
+    return x["xs"] if x["k"] in ("seq", "alt") and not x.get("sup") else [x]
+
+
+def single_unord(g, rng):
+    """`#` applied to a single element (assignment, match, reference, repetition): the generator of
+    gen_grammar only writes `#` after groups of >= 2 elements; one in three of them loses all but its first element."""
+    import copy
+
+    g = copy.deepcopy(g)
+
+    def walk(e):
+        if isinstance(e, dict):
+            if e.get("k") == "rep" and e.get("op") == "#" and e["x"]["k"] == "seq" and not e["x"].get("sup") and rng.chance(0.33):
+                e["x"] = e["x"]["xs"][0]
+            for v in list(e.values()):
+                walk(v)
+        elif isinstance(e, list):
+            for v in e:
+                walk(v)
+
+    for r in g["rules"]:
+        walk(r["body"])
+    return g
+
+
 def falsy(e, fr):
     """generator-side copy of Tx.falsy (Doc.lean); the authoritative DocFragment flag comes from the Lean driver"""
     if e.get("sup"):
@@ -249,7 +284,7 @@ def falsy(e, fr):
         if e["op"] == "+":
             return falsy(e["x"], fr)
         if e["op"] == "#":
-            return all(falsy(x, fr) for x in e["x"]["xs"])
+            return all(falsy(x, fr) for x in unord_elems(e))
         return True
     if k == "asgn":
         return falsy(e["rhs"], fr) if e["op"] in ("=", "+=") else True
@@ -294,11 +329,14 @@ def make_productive(g, rng):
                     e["x"] = guard(e["x"])
                 elif e["op"] == "#":
                     xs = []
-                    for x in e["x"]["xs"]:
+                    for x in unord_elems(e):
                         opt = (x["k"] == "rep" and x["op"] == "?" and not x.get("sup") and not falsy(x["x"], fr)) or \
                               (x["k"] == "asgn" and x["op"] == "?=" and not falsy(x["rhs"], fr))
                         xs.append(x if opt else guard(x))
-                    e["x"]["xs"] = xs
+                    if e["x"]["k"] in ("seq", "alt") and not e["x"].get("sup"):
+                        e["x"]["xs"] = xs
+                    else:
+                        e["x"] = xs[0]      # a guarded single element becomes the group `(lit x)#`
             elif k == "asgn":
                 if e["op"] in ("+=", "*=", "?=") and falsy(e["rhs"], fr):
                     e["rhs"] = {"k": "ref", "name": "INT"}
@@ -311,15 +349,77 @@ def make_productive(g, rng):
     return g
 
 
+def rename_rule(g, old, new):
+    """the grammar with rule `old` called `new` everywhere"""
+    import copy
+
+    g = copy.deepcopy(g)
+
+    def ren(e):
+        if isinstance(e, dict):
+            if e.get("k") == "ref" and e.get("name") == old:
+                e["name"] = new
+            for v in e.values():
+                ren(v)
+        elif isinstance(e, list):
+            for v in e:
+                ren(v)
+
+    for r in g["rules"]:
+        if r["name"] == old:
+            r["name"] = new
+        ren(r["body"])
+    return g
+
+
+def list_rhs_rules(g):
+    """names of the grammar's own rules that stand on the right-hand side of a `+=` / `*=`"""
+    names = {r["name"] for r in g["rules"]}
+    out = []
+
+    def walk(e):
+        if isinstance(e, dict):
+            if e.get("k") == "asgn" and e.get("op") in ("+=", "*=") and e["rhs"].get("k") == "ref" and e["rhs"]["name"] in names:
+                out.append(e["rhs"]["name"])
+            for v in e.values():
+                walk(v)
+        elif isinstance(e, list):
+            for v in e:
+                walk(v)
+
+    for r in g["rules"]:
+        walk(r["body"])
+    return [n for n in out if n != g["rules"][0]["name"]]
+
+
+def name_a_rule_sep(g, rng):
+    """A grammar rule may be called `sep` (the name Arpeggio gives the separator matches of repeat modifiers):
+    its values must not be taken for separators.  Prefers a rule whose values are collected by a list assignment."""
+    cands = list_rhs_rules(g) or [r["name"] for r in g["rules"][1:]]
+    if not cands:
+        return g
+    return rename_rule(g, rng.choice(cands), "sep")
+
+
 def break_grammar(g, rng):
     """malformed stream: one grammar-level error (TextXSemanticError / TextXSyntaxError expected)"""
     import copy
 
     g = copy.deepcopy(g)
     r = rng.choice(g["rules"])
-    c = rng.choice(["unknown", "bool2", "boolrep", "optmods", "plainmods"])
+    c = rng.choice(["unknown", "bool2", "boolrep", "optmods", "plainmods", "boolfirst", "parentattr", "asgnname"])
     if c == "unknown":
         extra = {"k": "ref", "name": "Nowhere"}
+    elif c == "boolfirst":      # `?=` first, any other assignment later: rejected since the C02 repair
+        extra = {"k": "seq", "xs": [{"k": "asgn", "attr": "zz", "op": "?=", "rhs": G.lit(rng), "sep": None, "eol": False},
+                                    {"k": "asgn", "attr": "zz", "op": rng.choice(["=", "+=", "*="]), "rhs": G.lit(rng),
+                                     "sep": None, "eol": False}]}
+    elif c == "parentattr":     # reserved attribute name
+        extra = {"k": "asgn", "attr": "parent", "op": rng.choice(["=", "+=", "?="]), "rhs": G.lit(rng), "sep": None, "eol": False}
+    elif c == "asgnname":       # reserved rule-name prefix
+        if len(g["rules"]) > 1:
+            r = rng.choice(g["rules"][1:])
+        return rename_rule(g, r["name"], "__asgn_" + rng.choice(["x", "plain", "list"]))
     elif c == "bool2":
         extra = {"k": "seq", "xs": [{"k": "asgn", "attr": "zz", "op": "=", "rhs": G.lit(rng), "sep": None, "eol": False},
                                     {"k": "asgn", "attr": "zz", "op": "?=", "rhs": G.lit(rng), "sep": None, "eol": False}]}
@@ -482,9 +582,8 @@ def norm_value(v):
 
 
 def same_outcome(real, m):
-    """None when the real outcome and a Lean outcome agree (or the case belongs to C03), else a description."""
-    if m.get("c03"):
-        return None
+    """None when the real outcome and a Lean outcome agree, else a description."""
+    m = {k: v for k, v in m.items() if k != "c03"}
     if "ok" in m:
         mv = {"ok": norm_value(m["ok"])}
     else:
@@ -504,6 +603,8 @@ class Prop(Check):
     LEAN_MODULE = "TextxVerif.Props.C01"
     THEOREMS = ["Tx.C01_expr_partial", "Tx.C01_expr_accepts_iff", "Tx.C01_verdict_fuel_independent",
                 "Tx.C01_build_flat_partial", "Tx.C01_token_value",
+                "Tx.C01_compile_rule_partial", "Tx.C01_compile_seq_child", "Tx.C01_compiled_expr_partial",
+                "Tx.C01_sep_by_name_pinned_false",
                 "Tx.C01_full_false_none_alternative", "Tx.C01_full_false_empty_list_alternative",
                 "Tx.C01_full_false_falsy_repetition", "Tx.C01_full_false_separator_kept",
                 "Tx.C01_full_false_comment_cache", "Tx.C01_full_false_ws_restore"]
@@ -531,8 +632,11 @@ class Prop(Check):
         "regex match contributes nothing; a model whose top rule contributes nothing is ''; Comments are skipped also with "
         "skipws off; eolterm removes \\n\\r from the active whitespace for the duration of the repetition; # takes each element "
         "once, elements that can match nothing may be absent; a non-empty list as `name` is the documented hashability error",
-        "cases on which the pinned and the C02-repaired multiplicity walk differ (multSensitive) and texts whose abstract-rule "
-        "nodes mix match-rule children before the first object (c03) are not compared: they belong to C02 / C03",
+        "the mirror follows /repo main: the C02-repaired multiplicity walk and the symmetric '?=' rejection, separator children told "
+        "by the identity of the separator match (a rule may be called `sep`), the C03-repaired choice of an abstract rule's value; "
+        "grammars / texts on which the pinned code would differ are compared like all others and only counted in the evidence "
+        "(pinned_walk_would_differ, pinned_c03_would_differ_texts); Sem leaves an abstract rule application undefined (skip) only "
+        "when its parts contain match-rule values but no object",
         "proved fragment: rule-free expressions over string matches with sequence / ordered choice / ? / * / + under DocFragment "
         "(C01_expr_partial); everything else (suppression, separators, eolterm, #, predicates, regexes, rule references and "
         "modifiers, Comment, model construction) is covered by correspondence + direct oracle only",
@@ -544,6 +648,9 @@ class Prop(Check):
             style = r.weighted([("doc", 6), ("free", 3), ("broken", 1)])
             gg = Gen(r, links=False, nrules=r.randint(1, 5), comment_p=0.3)
             g = gg.grammar()
+            if r.chance(0.2):
+                g = name_a_rule_sep(g, r)
+            g = single_unord(g, r)
             if style == "doc":
                 g = make_productive(g, r)
             cfg = r.choice(CFGS)
@@ -614,8 +721,6 @@ class Prop(Check):
         d = self.compare_compile(case, obs, out["compiled"])
         if d or "compiled" not in obs or "ok" not in out["compiled"]:
             return d
-        if out["compiled"]["ok"]["multSensitive"]:
-            return None
         for t, real, m in zip(obs["texts"], obs["loads"], out["loads"]):
             d = same_outcome(real, m["mirror"])
             if d:
@@ -646,7 +751,7 @@ class Prop(Check):
                 if a != b:
                     return f"compile: node {i} differs: real {a} mirror {b}"
             return f"compile: top/comments differ: real {rt['top']},{rt['comments']} mirror {mt['top']},{mt['comments']}"
-        if not m["multSensitive"] and m["classes"] != obs["compiled"]["classes"]:
+        if m["classes"] != obs["compiled"]["classes"]:
             for a, b in zip(obs["compiled"]["classes"], m["classes"]):
                 if a != b:
                     return f"compile: class differs: real {a} mirror {b}"
@@ -675,11 +780,11 @@ class Prop(Check):
         if "loads" not in obs:
             return None
         out = self.lean_out(case, obs)
-        if not out or "loads" not in out or out["compiled"]["ok"]["multSensitive"]:
+        if not out or "loads" not in out:
             return None
         for t, real, m in zip(obs["texts"], obs["loads"], out["loads"]):
             sem = m["sem"]
-            if "skip" in sem or sem.get("err") == "fuel" or m["mirror"].get("c03"):
+            if "skip" in sem or sem.get("err") == "fuel":
                 continue
             d = same_outcome(real, sem)
             if d:
@@ -689,7 +794,7 @@ class Prop(Check):
     def failing_texts(self, case, obs, out):
         for t, real, m in zip(obs["texts"], obs["loads"], out["loads"]):
             sem = m["sem"]
-            if "skip" in sem or sem.get("err") == "fuel" or m["mirror"].get("c03"):
+            if "skip" in sem or sem.get("err") == "fuel":
                 continue
             if same_outcome(real, sem):
                 yield t, real, m
@@ -739,9 +844,9 @@ class Prop(Check):
         return False
 
     def extra_evidence(self, cases, obs, outs):
-        ev = {"grammars": len(cases), "grammar_errors": 0, "doc_fragment_grammars": 0, "mult_sensitive_skipped": 0,
+        ev = {"grammars": len(cases), "grammar_errors": 0, "doc_fragment_grammars": 0, "pinned_walk_would_differ": 0, "rule_named_sep": 0,
               "texts": 0, "accepted_texts": 0, "accepted_with_2plus_objects": 0, "sem_decided_texts": 0,
-              "sem_decided_texts_in_doc_fragment": 0, "c03_skipped_texts": 0, "unsupported": 0}
+              "sem_decided_texts_in_doc_fragment": 0, "pinned_c03_would_differ_texts": 0, "unsupported": 0}
         for c, o, out in zip(cases, obs, outs):
             if "grammar_error" in o:
                 ev["grammar_errors"] += 1
@@ -750,8 +855,8 @@ class Prop(Check):
                     ev["unsupported"] += 1
                 continue
             if out["compiled"]["ok"]["multSensitive"]:
-                ev["mult_sensitive_skipped"] += 1
-                continue
+                ev["pinned_walk_would_differ"] += 1
+            ev["rule_named_sep"] += any(r["name"] == "sep" for r in c["gram"]["rules"])
             ev["doc_fragment_grammars"] += bool(out.get("doc"))
             for real, m in zip(o.get("loads", []), out["loads"]):
                 ev["texts"] += 1
@@ -759,8 +864,8 @@ class Prop(Check):
                     ev["accepted_texts"] += 1
                     ev["accepted_with_2plus_objects"] += str(real).count("'cls'") >= 2
                 if m["mirror"].get("c03"):
-                    ev["c03_skipped_texts"] += 1
-                elif "skip" not in m["sem"] and m["sem"].get("err") != "fuel":
+                    ev["pinned_c03_would_differ_texts"] += 1
+                if "skip" not in m["sem"] and m["sem"].get("err") != "fuel":
                     ev["sem_decided_texts"] += 1
                     ev["sem_decided_texts_in_doc_fragment"] += bool(out.get("doc"))
         return ev
